@@ -424,8 +424,9 @@ package proxy
 //@   ensures req.Header == old(req.Header) && req.ctx == old(req.ctx) && req.URL != nil && req.Body == old(req.Body)
 //@   ensures [C08] result == nil ==> req.URL != nil && sid(req.URL.Path) == old(sid(req.URL.Path)) && sid(req.URL.RawPath) == old(sid(req.URL.RawPath)) && sid(req.URL.RawQuery) == old(sid(req.URL.RawQuery)) && sid(req.Method) == old(sid(req.Method))
 
-// None of the hop-by-hop header fields is left after removeHopByHopHeaders.
-//@ props C08 C16
+// None of the hop-by-hop header fields is left after removeHopByHopHeaders; Cache-Control and
+// Expires survive it even when a sender lists them as connection options (they decide storability).
+//@ props C08 C16 C04
 //@ func removeHopByHopHeaders
 //@   assigns map_@header
 //@   requires header != nil
@@ -433,6 +434,12 @@ package proxy
 //@   loop 1 invariant old(specHdrOK(header)) ==> specHdrOK(header)
 //@   loop 2 invariant old(specHdrOK(header)) ==> specHdrOK(header)
 //@   ensures [C08] !in(header, "Connection") && !in(header, "Proxy-Connection") && !in(header, "Keep-Alive") && !in(header, "Proxy-Authenticate") && !in(header, "Proxy-Authorization") && !in(header, "Te") && !in(header, "Trailer") && !in(header, "Transfer-Encoding") && !in(header, "Upgrade")
+//@   ensures [C04] old(in(header, "Cache-Control")) ==> in(header, "Cache-Control") && len(header["Cache-Control"]) == old(len(header["Cache-Control"])) && (forall i int :: 0 <= i && i < len(header["Cache-Control"]) ==> sid(header["Cache-Control"][i]) == old(sid(header["Cache-Control"][i])))
+//@   ensures [C04] old(in(header, "Expires")) ==> in(header, "Expires") && sid(header["Expires"][0]) == old(sid(header["Expires"][0]))
+//@   loop 1 invariant [C04] old(in(header, "Cache-Control")) ==> in(header, "Cache-Control") && len(header["Cache-Control"]) == old(len(header["Cache-Control"])) && (forall i int :: 0 <= i && i < len(header["Cache-Control"]) ==> sid(header["Cache-Control"][i]) == old(sid(header["Cache-Control"][i])))
+//@   loop 2 invariant [C04] old(in(header, "Cache-Control")) ==> in(header, "Cache-Control") && len(header["Cache-Control"]) == old(len(header["Cache-Control"])) && (forall i int :: 0 <= i && i < len(header["Cache-Control"]) ==> sid(header["Cache-Control"][i]) == old(sid(header["Cache-Control"][i])))
+//@   loop 1 invariant [C04] old(in(header, "Expires")) ==> in(header, "Expires") && sid(header["Expires"][0]) == old(sid(header["Expires"][0]))
+//@   loop 2 invariant [C04] old(in(header, "Expires")) ==> in(header, "Expires") && sid(header["Expires"][0]) == old(sid(header["Expires"][0]))
 
 // The response handed back is the origin's answer to this request: the client
 // used does not follow redirects on its own.
